@@ -192,7 +192,20 @@ where
                 } else {
                     let idx = slots[s].case.load(Ordering::SeqCst);
                     let tail_full = std::fs::read_to_string(&r.err_path).unwrap_or_default();
-                    let tail: String = tail_full.lines().rev().take(4).collect::<Vec<_>>().into_iter().rev().collect::<Vec<_>>().join(" | ");
+                    // headline (first line mentioning the cause) + first frame inside the subject
+                    let headline = tail_full
+                        .lines()
+                        .find(|l| l.contains("memory allocation of") || l.contains("overflowed its stack") || l.contains("panicked") || l.contains("fatal runtime error"))
+                        .unwrap_or("")
+                        .trim()
+                        .to_owned();
+                    let frame = tail_full
+                        .lines()
+                        .map(|l| l.trim())
+                        .find(|l| l.contains(": rbx_") && !l.contains("vh::"))
+                        .map(|l| l.splitn(2, ": ").nth(1).unwrap_or(l).split("::h").next().unwrap_or(l).to_owned())
+                        .unwrap_or_default();
+                    let tail: String = format!("{} | site {}", headline, frame);
                     let ab = if timed_out {
                         Abnormal::TimedOut { seconds: case_timeout.as_secs_f64() }
                     } else {
